@@ -1,3 +1,4 @@
+// VERIF-UNIT-FLAGS: -fno-access-control
 // Driver TU: forces emission of every qsbr_epoch / qsbr_state word function (inline constexpr, private statics: the IR is taken with
 // -fno-access-control, which changes no semantics).  Only repo headers are included; the wrappers only forward.
 #include "global.hpp"
